@@ -407,6 +407,9 @@ func (p *Prog) langDefAxiom(name string) (string, []string) {
 		}
 		ns = append(ns, id.Name)
 	}
+	if fn == "lowerpre" {
+		return fmt.Sprintf("(assert (forall ((s BSeq)) (! (= (inlang_%s s) (inlang_%s (lower s))) :pattern ((inlang_%s s)) :pattern ((inlang_%s (lower s))))))", name, ns[0], name, ns[0]), append(ns, "@lower")
+	}
 	var body string
 	switch fn {
 	case "and", "or":
@@ -539,6 +542,10 @@ func (p *Prog) header(useSeq bool, specUsed, langsUsed map[string]bool, lemmas [
 			}
 			defTexts = append(defTexts, ax)
 			for _, d := range deps {
+				if d == "@lower" {
+					visit("lower")
+					continue
+				}
 				if !langs[d] {
 					langs[d] = true
 					changed = true
